@@ -19,6 +19,8 @@ func init() {
 // independenceFuncs finds, by role, the functions that implement the check: a call of
 // Modality().CanBeDownshiftedTo(Modality()) whose false edge is an error (the "one" check),
 // and wrappers that loop over names calling it and propagate the error.
+var independenceSkips = map[*ssa.Function]string{}
+
 func independenceFuncs(p *Program) map[*ssa.Function]bool {
 	out := map[*ssa.Function]bool{}
 	for _, fn := range p.SrcFuncs {
@@ -92,6 +94,9 @@ func independenceFuncs(p *Program) map[*ssa.Function]bool {
 				if inLoop && prop {
 					out[fn] = true
 					changed = true
+					if w := skipsIteration(p, view, call); w != "" {
+						independenceSkips[fn] = w
+					}
 				}
 			}
 		}
@@ -110,6 +115,17 @@ func runIndependence(p *Program, r *RuleResult) {
 		names = append(names, fnName(f))
 	}
 	r.note("independence check implemented by: %v", names)
+	for f := range ind {
+		if len(f.Params) != 2 || !strings.HasPrefix(f.Params[0].Type().String(), "[]") {
+			continue
+		}
+		if w, bad := independenceSkips[f]; bad {
+			r.add(fnName(f), "checks-every-name", Violated, p.pos(f.Pos()),
+				"the loop over the context's names can complete an iteration without comparing that name's mode with the provider's (iteration ending at "+w+"): some channel of the context is never checked")
+		} else {
+			r.add(fnName(f), "checks-every-name", Holds, p.pos(f.Pos()), "every iteration of the loop over the names runs the mode comparison")
+		}
+	}
 	d := findTypecheckDriver(p)
 	dview := p.View(d.Driver)
 
@@ -272,6 +288,7 @@ func runIndependence(p *Program, r *RuleResult) {
 			continue
 		}
 		found := ""
+		skipped := ""
 		for _, ph := range d.Phases {
 			g := ph.Common().StaticCallee()
 			if ph != phase && !dview.passedBefore(phase, func(in ssa.Instruction) bool { return in == ssa.Instruction(ph) }) {
@@ -302,6 +319,10 @@ func runIndependence(p *Program, r *RuleResult) {
 					}
 				}
 				if inLoop && errExit {
+					if w := skipsIteration(p, gview, call); w != "" {
+						skipped = fmt.Sprintf("the check in %s can be skipped for some elements of the collection (iteration ending at %s); ", fnName(g), w)
+						continue
+					}
 					found = fnName(g) + " at " + p.instrPos(call)
 				}
 			}
@@ -310,7 +331,7 @@ func runIndependence(p *Program, r *RuleResult) {
 			r.add(name, construct, Holds, p.instrPos(s.call), "covered by the check in "+found+" (same collection, element's own names and type), which precedes this phase")
 		} else {
 			r.add(name, construct, Violated, p.instrPos(s.call),
-				fmt.Sprintf("the root judgements typed here (provider type %s) are never covered by the mode-independence check: a provider can depend on a channel of a weaker mode", provPath))
+				skipped+fmt.Sprintf("the root judgements typed here (provider type %s) are never covered by the mode-independence check: a provider can depend on a channel of a weaker mode", provPath))
 		}
 	}
 }
@@ -338,4 +359,59 @@ func sameTypeValue(a, b ssa.Value) bool {
 	}
 	pa, pb := accessPath(a), accessPath(b)
 	return pa != "" && pa == pb
+}
+
+// skipsIteration: in a loop of view containing call, is there a way round the loop (from the
+// header back to the header, inside the loop) that does not execute call? Returns the
+// position of the back-edge source of such an iteration. Iterations that skip because the
+// element has no type at all (a nil test on a SessionType) are not counted.
+func skipsIteration(p *Program, view *View, call ssa.Instruction) string {
+	for _, l := range view.Loops() {
+		if !l.Body[call.Block()] {
+			continue
+		}
+		seen := map[*ssa.BasicBlock]bool{}
+		var hit string
+		var walk func(b *ssa.BasicBlock)
+		walk = func(b *ssa.BasicBlock) {
+			if hit != "" {
+				return
+			}
+			if b == call.Block() {
+				return // executes the call
+			}
+			for _, su := range view.Succs(b) {
+				if su == l.Header {
+					nilSkip := false
+					for f := range view.FactsAt(b) {
+						if f.k == factNil && isSessionTypeType(f.v.Type()) {
+							nilSkip = true
+						}
+					}
+					if !nilSkip {
+						ins := view.Instrs(b)
+						hit = p.instrPos(ins[len(ins)-1])
+						if hit == "" || strings.HasPrefix(hit, "-") {
+							hit = "block " + b.Comment
+						}
+					}
+					continue
+				}
+				if l.Body[su] && !seen[su] {
+					seen[su] = true
+					walk(su)
+				}
+			}
+		}
+		for _, su := range view.Succs(l.Header) {
+			if l.Body[su] && !seen[su] {
+				seen[su] = true
+				walk(su)
+			}
+		}
+		if hit != "" {
+			return hit
+		}
+	}
+	return ""
 }
